@@ -32,7 +32,8 @@ func init() {
 
 const lcQuartzPkg = "github.com/reugn/go-quartz/quartz."
 
-var lcModes = []string{"unbounded", "blocking", "workers3"}
+// "blocking+workers3": both options given — WorkerLimit is documented to be ignored then (no pool, nothing extra to wait for)
+var lcModes = []string{"unbounded", "blocking", "workers3", "blocking+workers3"}
 
 type lcEnv struct {
 	viol     []string
@@ -72,6 +73,8 @@ func lcNew(mode string) quartz.Scheduler {
 		opts = append(opts, quartz.WithBlockingExecution())
 	case "workers3":
 		opts = append(opts, quartz.WithWorkerLimit(3))
+	case "blocking+workers3":
+		opts = append(opts, quartz.WithBlockingExecution(), quartz.WithWorkerLimit(3))
 	}
 	s, err := quartz.NewStdScheduler(opts...)
 	must(err)
